@@ -34,7 +34,7 @@ def main():
     uids = {}
     ids = {}            # id(ex) -> state id bytes as computed by the real get_state_id
     id_tokens = {}
-    trace = {"setup": None, "states": {}, "frontiers": {}, "evaluated": [], "handled": [], "calls": [], "probe_names": {}, "components": {}}
+    trace = {"setup": None, "states": {}, "frontiers": {}, "evaluated": [], "handled": [], "calls": [], "probe_names": {}, "components": {}, "asserts": [], "probe_results": [], "reported_final": None}
     probe_tokens = {}
 
     def uid(ex):
@@ -150,7 +150,26 @@ def main():
                 rec = [3, uid(post), -1]
                 pending.append((rec, post))
             group.append(rec)
+            arec = None
+            if rec[0] == 2:
+                # an assertion failure inside the target: is this path feasible at all (all its conditions
+                # together, decided here with z3)?  which functions are marked as reported right now?
+                import z3
+
+                try:
+                    s = z3.Solver()
+                    s.set("timeout", 20000)
+                    s.add(*list(post.path.conditions))
+                    feas = {"sat": 1, "unsat": 0}.get(str(s.check()), -1)
+                except Exception:  # noqa: BLE001
+                    feas = -1
+                arec = {"uid": uid(post), "probe": rec[1], "feasible": feas, "depth": len(ex.call_sequence) + 1,
+                        "seq": [c.message.fun_info.sig for c in ex.call_sequence] + [sub.message.fun_info.sig],
+                        "reported_before": sorted(probe_tok(fi) for fi in ctx.probes_reported)}
+                trace["asserts"].append(arec)
             yield post
+            if arec is not None:
+                arec["reported_after"] = sorted(probe_tok(fi) for fi in ctx.probes_reported)
 
     m.run_target_contract = run_target_contract
 
@@ -180,6 +199,21 @@ def main():
 
     m.CounterexampleHandler.handle_assertion_violation = handle_assertion_violation
 
+    orig_cb = m.CounterexampleHandler._solve_end_to_end_callback
+
+    def _solve_end_to_end_callback(self, future, ex, path_ctx, description):
+        try:
+            return orig_cb(self, future, ex=ex, path_ctx=path_ctx, description=description)
+        finally:
+            if self.is_probe:
+                try:
+                    out = self._get_solver_output(future, path_ctx)
+                    trace["probe_results"].append([uid(ex), str(out.result), out.model is not None])
+                except Exception as e:  # noqa: BLE001
+                    trace["probe_results"].append([uid(ex), f"exception {type(e).__name__}", False])
+
+    m.CounterexampleHandler._solve_end_to_end_callback = _solve_end_to_end_callback
+
     orig_rm = m.SEVM.run_message
 
     def sevm_run_message(self, pre_ex, message, path):
@@ -192,7 +226,10 @@ def main():
 
     orig_rc = m.run_contract
 
+    contract_ctxs = []
+
     def run_contract(ctx):
+        contract_ctxs.append(ctx)
         res = orig_rc(ctx)
         fs = ctx.frontier_states.get(0)
         if fs:
@@ -211,8 +248,9 @@ def main():
         for rec, post in pending:
             b = ids.get(id(post))
             rec[2] = tok(b) if b is not None else -1
-        if trace["setup"] is not None:
-            pass
+        results = list(trace["probe_results"])
+        if contract_ctxs:
+            trace["reported_final"] = {"reported": sorted(probe_tok(fi) for fi in contract_ctxs[-1].probes_reported), "results_seen": len(results)}
         with open(trace_path, "w") as f:
             json.dump(trace, f)
     return rc
